@@ -33,6 +33,34 @@ func (fr *frame) call(instr *ssa.Call, c *ssa.CallCommon, st *State) Value {
 	if c.IsInvoke() {
 		recv := args[0]
 		fr.oblige("nil", exprName(c.Value)+"."+c.Method.Name(), Ne(recv.Tag, "0"), pos)
+		if ict := fx.E.S.Contracts[ifaceKey(c.Value.Type(), c.Method.Name())]; ict != nil && len(targets) > 0 {
+			// behavioural contract of the interface method (every repository implementation is verified against it)
+			m := fx.E.callMods(c)
+			if ict.Pure {
+				m = &ModSet{Keys: map[string]bool{}}
+			} else if len(ict.Modifies) > 0 {
+				// declared frame of the interface method (ownership assumption: the back end does not write its client)
+				m = &ModSet{Keys: map[string]bool{}}
+				for _, k := range ict.Modifies {
+					if k != "nothing" {
+						m.Keys[k] = true
+					}
+				}
+				fx.note("assumed frame of %s: writes only %v (a back end never writes the BinaryReader that owns it)", ifaceKey(c.Value.Type(), c.Method.Name()), ict.Modifies)
+			}
+			fr.ifaceMods = m
+			defer func() { fr.ifaceMods = nil }()
+			res := fr.callContract(targets[0], ict, args, st, resT, pos, nil)
+			if ict.Pure && res.Kind == KInt {
+				if fx.enc.ghosts == nil {
+					fx.enc.ghosts = map[string]int{}
+				}
+				g := "pure." + sanitize(ifaceKey(c.Value.Type(), c.Method.Name()))
+				fx.enc.ghosts[g] = 1
+				fr.assume(Eq(res.T, app("g!"+g, recv.T)))
+			}
+			return res
+		}
 	}
 	if !dyn && len(targets) == 1 {
 		callee := targets[0]
@@ -42,7 +70,7 @@ func (fr *frame) call(instr *ssa.Call, c *ssa.CallCommon, st *State) Value {
 			fr.unsupported("direct call of a closure literal")
 		}
 		// receiver nil check is done by the callee's own dereferences; for contracts we need non-nil receivers explicitly
-		if ct := fx.E.S.Contracts[name]; ct != nil && !ct.Inline {
+		if ct := fx.E.effectiveContract(name); ct != nil && !ct.Inline {
 			return fr.callContract(callee, ct, args, st, resT, pos, c)
 		}
 		if fr.canInline(callee) {
@@ -239,7 +267,7 @@ func (fr *frame) callContract(callee *ssa.Function, ct *Contract, args []Value, 
 	name := FuncName(callee)
 	sub := &frame{fx: fx, fn: callee, name: name, params: fr.bindParams(callee, args), level: fr.level, prefix: fr.prefix, depth: fr.depth, curReach: fr.curReach}
 	pre := st.Clone()
-	if callee.Signature.Recv() != nil && len(args) > 0 && !ct.Extern {
+	if callee.Signature.Recv() != nil && len(args) > 0 && !ct.Extern && fr.ifaceMods == nil {
 		if _, ok := under(callee.Params[0].Type()).(*types.Pointer); ok {
 			fr.oblige("nil", "recv."+callee.Name(), Ne(args[0].T, "0"), pos)
 		}
@@ -285,6 +313,9 @@ func (fr *frame) callContract(callee *ssa.Function, ct *Contract, args []Value, 
 	}
 	// effects
 	m := fx.E.modset(callee)
+	if fr.ifaceMods != nil {
+		m = fr.ifaceMods
+	}
 	if ct.Pure {
 		m = &ModSet{Keys: map[string]bool{}}
 	}
@@ -647,4 +678,12 @@ func sameContract(a, b *Contract) bool {
 		return strings.Join(sb, ";")
 	}
 	return sig(a) == sig(b)
+}
+
+// ifaceKey names the contract of an interface method: pkg.Iface.Method.
+func ifaceKey(T types.Type, method string) string {
+	if n, ok := types.Unalias(T).(*types.Named); ok && n.Obj().Pkg() != nil {
+		return shortPkg(n.Obj().Pkg().Path()) + "." + n.Obj().Name() + "." + method
+	}
+	return "?." + method
 }
